@@ -52,6 +52,13 @@ for s in seeds:
         subprocess.run(['git', '-C', '/repo', 'worktree', 'remove', '--force', wt], capture_output=True)
         shutil.rmtree(wt, ignore_errors=True)
         shutil.rmtree(ev, ignore_errors=True)
-    json.dump(results, open(res_path, 'w'), indent=1)
+    json.dump(results[s], open(os.path.join(sd, 'result.json'), 'w'), indent=1) if s in results else None
+# merge the per-seed results (several seedrun processes may work side by side)
+results = {}
+for s in sorted(d for d in os.listdir(os.path.join(V, 'seeded')) if os.path.isdir(os.path.join(V, 'seeded', d))):
+    rp = os.path.join(V, 'seeded', s, 'result.json')
+    if os.path.exists(rp):
+        results[s] = json.load(open(rp))
+json.dump(results, open(res_path, 'w'), indent=1)
 n = sum(1 for r in results.values() if r.get('caught_by'))
 print(f'{n}/{len(results)} seeds caught by at least one check')
